@@ -3,6 +3,7 @@ configuration; the real generator must terminate without panicking and its outpu
 import os, random, re, shutil, subprocess
 
 import idlgen
+import boxsuite
 
 VERIF = os.path.dirname(os.path.dirname(os.path.abspath(__file__)))
 TARGET = os.path.join(VERIF, "target")
@@ -106,6 +107,19 @@ struct S { 1: i32 x, 2: set<string> t = ["a"], 3: set<i32> u = [] }
 struct B { 1: optional A a, 2: optional B again, 3: set<i32> s }
 union U { 1: A a, 2: U u, 3: list<U> us }
 service S { A f(1: B b, 2: U u) }
+""",
+    "boxzoo": """typedef Node Alias
+struct Node { 1: optional Alias next, 2: optional Leaf leaf, 3: list<Node> kids, 4: required Leaf must }
+struct Leaf { 1: i32 x }
+typedef list<Ring> RingList
+struct Ring { 1: optional RingList rs, 2: optional Hop hop, 3: map<string, Ring> named }
+struct Hop { 1: optional Skip skip, 2: optional Leaf leaf }
+typedef Ring Skip2
+typedef Skip2 Skip
+exception Boom { 1: optional Boom cause, 2: optional Wrap w, 3: optional Leaf leaf }
+union Wrap { 1: Boom b, 2: i32 n }
+struct Far { 1: optional Node n, 2: optional Ring r }
+service Z { Node f(1: Ring r, 2: Wrap w) }
 """,
     "annot": """struct Inner { 1: i32 x }
 struct Annot {
@@ -411,5 +425,22 @@ def step(cfg, tier, seed, workdir, env):
         live = [m for m in live if m not in bad]
     for m in mods[:3]:
         samples.append({"document": origin[m][0], "config": origin[m][1], "idl_head": origin[m][3][:200]})
-    return dict(evaluations=evaluations, distinct=distinct, samples=samples, oracle_fails=oracle_fails, disagreements=[],
-                extra={"documents": len(docs), "configurations": [c for c, _ in configs], "modules_type_checked": len(mods), "rustc_rounds": rounds})
+    # T1 for the boxing decision (Build/Graph.lean vs the `Box<…>` fields of the emitted structs): every generated Thrift document
+    # whose output is a single file, under every configuration
+    disagreements, boxed_positions, box_docs = [], 0, 0
+    for m in mods:
+        name, cname, idl, text, flags, kind = origin[m]
+        if kind != "thrift" or "--split" in flags or name not in ("cycles", "mutual", "boxzoo"):
+            continue
+        try:
+            req, impl, model, nitems = boxsuite.compare(text, os.path.join(CHECK_DIR, m, "gen.rs"))
+        except Exception as ex:      # an unreadable emitted file is a broken correspondence, not a crash of the check
+            req, impl, model, nitems = f"boxed <{name}>", f"unreadable: {ex}", "?", 0
+        evaluations += 1
+        box_docs += 1
+        boxed_positions += len(model.split()) if model and not model.startswith(("unsaturated", "no answer", "bad")) else 0
+        if impl != model:
+            disagreements.append(("C14box", f"{req[:4000]}   # document {name} [{cname}]", impl[:600], model[:600]))
+    return dict(evaluations=evaluations, distinct=distinct, samples=samples, oracle_fails=oracle_fails, disagreements=disagreements,
+                extra={"documents": len(docs), "configurations": [c for c, _ in configs], "modules_type_checked": len(mods), "rustc_rounds": rounds,
+                       "boxing_documents_compared": box_docs, "boxed_positions_in_model": boxed_positions})
